@@ -33,7 +33,7 @@ ASSUMPTIONS = [
     "(they are global on the production grid)",
     "cap URLs are http(s) strings (anything else in a seed response is ignored by design)",
 ]
-MUST_REACH = {"resolutions_checked": 2000, "name_lookups_checked": 1000, "temporary_caps_consumed": 50,
+MUST_REACH = {"proxy_only_caps_registered_by_a_request_hook": 30, "resolutions_checked": 2000, "name_lookups_checked": 1000, "temporary_caps_consumed": 50,
               "seed_flows": 100, "proxy_only_stripped": 30, "wrapper_caps_checked": 30, "proxy_cap_reregistrations": 30,
               "prefix_related_resolutions": 50, "regranted_names": 30, "old_urls_regranted": 20, "name_lookups_after_consumption_with_survivors": 10, "wrapper_redirects_checked": 30,
               "regions_reannounced": 50, "old_seeds_regranted": 10, "regions_registered_without_seed": 10,
@@ -219,6 +219,23 @@ def check_wrapper_stands_for(ctx, rig, name, granted_url, wrapper_url, wit):
                                                                          wrapper=wrapper_url, target=target))
 
 
+class LateCapAddon:
+    """An addon that provides a capability of its own and registers it the moment it first sees a region's Seed request go by
+    (its request hook) - as good a moment as any other before the request leaves for the simulator."""
+    def __init__(self):
+        self.arm = None
+        self.registered = None
+
+    def handle_http_request(self, session_manager, flow):
+        cd = flow.cap_data
+        if self.arm and cd is not None and cd.cap_name == "Seed" and cd.region and cd.region() is not None:
+            name, self.arm = self.arm, None
+            self.registered = (name, cd.region().register_proxy_cap(name))
+
+
+LATE = LateCapAddon()
+
+
 def seed_flow(ctx, rng, rig, m, regions, sessions, wit):
     """A Seed request (viewer -> sim) and response (sim -> viewer) through the real event manager."""
     ctx.count("seed_flows")
@@ -247,13 +264,28 @@ def seed_flow(ctx, rng, rig, m, regions, sessions, wit):
         for n in proxy_only_names:
             if rng.random() < 0.8:
                 requested.insert(rng.randrange(len(requested) + 1), n)
+    late = None
+    fresh = [n for n in PROXY_NAMES + ["HippoDelta"] if m.newest(n) is None]
+    if fresh and rng.random() < 0.3:
+        # one more proxy-only capability, registered by an addon's request hook while this very request passes through
+        late = rng.choice(fresh)
+        requested.insert(rng.randrange(len(requested) + 1), late)
+        LATE.arm, LATE.registered = late, None
     flow = make_flow(seed_url, method=b"POST", content=llsd.format_xml(requested))
     rig.flow_context.to_proxy_queue.log.clear()
     rig.send_event("request", flow)
     exc = rig.pump()
+    LATE.arm = None
     if exc is not None or len(rig.flow_context.to_proxy_queue.log) != 1:
         ctx.violation("seed-request-not-handed-back", "the Seed request was not handed back once", dict(wit, exc=repr(exc)[:200]))
         return
+    if late is not None:
+        if LATE.registered is None or LATE.registered[0] != late:
+            ctx.inconclusive_because("the addon's request hook did not see the Seed request")
+            return
+        m.add(late, LATE.registered[1], CapType.PROXY_ONLY)
+        proxy_only_names = sorted(set(proxy_only_names) | {late})
+        ctx.count("proxy_only_caps_registered_by_a_request_hook")
     import copy
     _, _, state = rig.flow_context.to_proxy_queue.log[-1]
     back = HippoHTTPFlow.from_state(copy.deepcopy(state), rig.session_manager)
@@ -333,7 +365,7 @@ def run_sequence(ctx, seed):
 
 def _run_sequence(ctx, seed, clock):
     rng = random.Random(seed)
-    rig = HTTPRig()
+    rig = HTTPRig(addons=[LATE])
     try:
         sessions = [rig.add_session(("10.1.0.1", 13001)), rig.add_session(("10.2.0.1", 13001))]
         regions = []
